@@ -1,11 +1,13 @@
 """C29 Commutative constructors are order independent (the canonical operand ordering is a consistent total preorder).
-Tie: translator (typecode table) + correspondence of `cmp_expr` with the Lean model `Expr.cmp` on generated pairs
+Tie: translators (typecode table; harness/translate/ordervariant.py: which sort keys the comparators of Constant / geometric
+quantities / Zero of the tree under test compare, read from `_terminal_cmps` and the source of `cmp_expr` and of the comparators;
+regenerated for every property by harness/common.py) + correspondence of `cmp_expr` with the Lean model `Expr.cmp` on generated pairs
 (related by one edit, sharing sub-objects, different ranks/index patterns) and triples; oracle: antisymmetry, transitivity,
 a+b == b+a, a*b == b*a, inner(a,b) == conj(inner(b,a)) on the implementation."""
 import random, itertools
 import common
 from common import Prop, Witness, Failure, LEAN, write_if_changed
-from translate import typecodes
+from translate import typecodes, ordervariant
 import uflio, gen, leandrv
 
 
@@ -89,12 +91,61 @@ def rank_pairs(G):
     return out
 
 
+def keyed_terminal_pool(rng):
+    """the terminals whose comparator compares a sort key (Constant, geometric quantities, Zero; by repr or by numbers,
+    whichever the tree under test does): counts, mesh ids and free-index counts on both sides of 9/10, 99/100, 999/1000,
+    different shapes / index dimensions / geometric and topological dimensions, and operators over them"""
+    import ufl
+    from utils import LagrangeElement
+    from ufl.classes import Zero
+    lo = rng.choice([8, 9, 98, 99, 998, 999])
+    tri = LagrangeElement(ufl.triangle, 1, (2,))
+    tri3 = LagrangeElement(ufl.triangle, 1, (3,))       # gdim 3, tdim 2
+    tet = LagrangeElement(ufl.tetrahedron, 1, (3,))
+    tri2 = LagrangeElement(ufl.triangle, 2, (2,))
+    meshes = [ufl.Mesh(tri, ufl_id=lo), ufl.Mesh(tri, ufl_id=lo + 1), ufl.Mesh(tri, ufl_id=lo + 2), ufl.Mesh(tri3, ufl_id=lo - 1),
+              ufl.Mesh(tet, ufl_id=lo - 2), ufl.Mesh(tri2, ufl_id=lo + 3),
+              ufl.Mesh(tri2, ufl_id=lo)]      # the ufl_id of meshes[0] with another coordinate element: the keys differ in an object only
+    consts = []
+    for m in meshes[:4] + meshes[-1:]:
+        for c in (lo, lo + 1, lo + 2, 5):
+            consts.append(ufl.Constant(m, count=c))
+    for m in meshes[:2]:
+        consts += [ufl.Constant(m, (2,), count=lo + 1), ufl.Constant(m, (3,), count=lo), ufl.Constant(m, (2, 2), count=lo + 2),
+                   ufl.Constant(m, (10,), count=lo), ufl.Constant(m, (9,), count=lo + 1)]
+    geos = []
+    for cls in (ufl.CellVolume, ufl.Circumradius, ufl.FacetArea):
+        geos += [cls(m) for m in meshes]
+    vgeos = [cls(m) for cls in (ufl.FacetNormal, ufl.SpatialCoordinate) for m in meshes]
+    zeros = []
+    for sh in ((), (2,), (3,), (10,), (9,), (2, 2)):
+        zeros.append(Zero(sh))
+    for (cs, ds) in (((lo,), (2,)), ((lo + 1,), (2,)), ((lo + 1,), (3,)), ((lo + 2,), (10,)), ((lo,), (9,)),
+                     ((lo, lo + 1), (2, 3)), ((lo + 1, lo + 2), (3, 2)), ((lo + 1, lo + 2), (2, 3))):
+        zeros.append(Zero((), cs, ds))
+        zeros.append(Zero((2,), cs, ds))
+    scal_c = [c for c in consts if c.ufl_shape == ()]
+    pools = [consts, geos, vgeos, zeros]
+    ops = []
+    for _ in range(10):
+        a, b = rng.sample(scal_c, 2)
+        g, h = rng.sample(geos, 2)
+        try:
+            ops += [a * b, b * a, a + g, g + a, g * h, h * g, a * g + h, ufl.max_value(a, g), ufl.max_value(b, g), a / g, b / h]
+        except TypeError:      # the constructor sorts its operands: see `comparable` below
+            pass
+    pools.append(ops)
+    return pools
+
+
 class C29(Prop):
     pid = "C29"
     lean_modules = ["UflVerif.Props.C29"]
     min_theorems = 8
-    trusted = ["translator harness/translate/typecodes.py (typecode table); correspondence harness/props/c29.py + Drivers/Expr.lean `(cmp a b)`",
-               "modelled rather than verified: `repr` of terminals compared by `_cmp_terminal_by_repr` is taken from the live object (key string); float literal repr is modelled for dyadic literals only; "
+    trusted = ["translators harness/translate/typecodes.py (typecode table), harness/translate/ordervariant.py (sort keys of the Constant / geometric quantity / Zero comparators, from the source of ufl/sorting.py); "
+               "correspondence harness/props/c29.py + Drivers/Expr.lean `(cmp a b)`",
+               "modelled rather than verified: `repr` of terminals compared by `_cmp_terminal_by_repr` and the domain `_ufl_sort_key_()` of Constants / geometric quantities are taken from the live object "
+               "(key string; flattened tuple of ints and strs, the coordinate element as its repr: Python raises TypeError for two meshes with one ufl_id and different coordinate elements); float literal repr is modelled for dyadic literals only; "
                "the explicit stack, `is`-shortcuts and `equal_pairs` memo of cmp_expr are modelled by plain recursion (sound iff cmp is reflexive, which is proved)"]
     assumptions = ["Argument parts are compared as integers (None = -1); Python raises TypeError when one part is None and the other is not, for equal numbers",
                    "order independence of Sum/Product/Inner is claimed for operands with cmp != 0 (distinguishable without index/label numbers), as the property states"]
@@ -124,6 +175,25 @@ class C29(Prop):
             for t in itertools.permutations(rng.sample(pool, min(5, len(pool))), 3):
                 triples.append(t)
             pairs += shared_object_pairs(rng, G)
+        self.n_keyed, self.n_typeerror = 0, 0
+        def comparable(a, b):
+            # a sort key that contains objects without `<` (two meshes with one ufl_id and different coordinate elements, unless
+            # the comparator makes the key sortable) makes Python raise TypeError: outside the model, counted
+            try:
+                cmp_expr(a, b)
+                return True
+            except TypeError:
+                self.n_typeerror += 1
+                return False
+        for k in range(2 if ctx.quick else 12):
+            for pool in keyed_terminal_pool(rng):
+                sub = pool if len(pool) <= 18 else rng.sample(pool, 18)
+                for a, b in itertools.permutations(sub, 2):
+                    if comparable(a, b):
+                        pairs.append((a, b)); self.n_keyed += 1
+                for t in itertools.permutations(rng.sample(pool, min(6, len(pool))), 3):
+                    if comparable(t[0], t[1]) and comparable(t[1], t[2]) and comparable(t[0], t[2]):
+                        triples.append(t)
         return pairs, triples
 
     def correspondence(self, ctx, ev):
@@ -171,12 +241,18 @@ class C29(Prop):
             if c(a, b) <= 0 and c(b, d) <= 0 and c(a, d) > 0:
                 self.bad.append(("cmp_expr is not transitive: a <= b <= c but a > c", dict(kind="trans", a=str(a)[:200], b=str(b)[:200], c=str(d)[:200])))
         ev.cov["evaluations"] = len(pairs) + len(triples)
+        od = ordervariant.read()
+        ev.cov["terminal_comparators"] = dict(variant={"R": "repr comparators", "N": "numeric comparators (fix_C12_1)", "M": "mixed"}[ordervariant.variant(od)],
+                                              table=od["table"], chain=od["chain"], Constant=od["const"], GeometricQuantity=od["geo"], Zero=od["zero"])
+        ev.cov["pairs_of_key_compared_terminals"] = self.n_keyed
+        ev.cov["pairs_outside_model_cmp_expr_raises_TypeError"] = self.n_typeerror
         ev.cov["distinct_nontrivial"] = len(distinct)
         ev.cov["pairs_with_nonzero_cmp"] = nz
         ev.cov["triples"] = len(triples)
         ev.cov["traces_validated_against_impl"] = len(pairs)
         ev.cov["rule"] = ("ordered pairs/triples from per-case pools of same-type expressions: independent random ones, one-edit variants, equal-but-distinct rebuilds, "
-                          "and scalars obtained by fixed-indexing tensors of different rank (multi-indices of different length); cmp_expr sign vs model for every ordered pair; "
+                          "and scalars obtained by fixed-indexing tensors of different rank (multi-indices of different length); directed pools of Constants / geometric quantities / Zeros "
+                          "(counts, mesh ids, free-index counts around 9/10, 99/100, 999/1000; several shapes, index dimensions, gdim/tdim) and operators over them; cmp_expr sign vs model for every ordered pair; "
                           "non-trivial = distinct pair request with >= 3 operator nodes")
         ev.cov["samples"] = [dict(a=str(a)[:120], b=str(b)[:120], cmp=i) for (a, b), i in list(zip(pairs, impl))[:5]]
         return fails
